@@ -65,7 +65,9 @@ macro "window_eq" : tactic => `(tactic| (
            first
              | rfl
              | (exfalso; omega)
-             | (simp only [PyOut.ok.injEq, Prod.mk.injEq]; refine ⟨?_, ?_, ?_, ?_⟩ <;> omega))))
+             | (simp only [PyOut.ok.injEq, Prod.mk.injEq]; refine ⟨?_, ?_, ?_, ?_⟩ <;> first | trivial | omega)
+             | (simp only [PyOut.ok.injEq, Prod.mk.injEq, true_and, and_true]; omega)
+             | (simp_all; omega))))
 
 /-- **the translated `get_window` is the hand model** (non-strict comparisons), for all integers -/
 theorem getWindow_eq_fixed : ∀ (roi : Roi) (width height : Int),
